@@ -35,6 +35,7 @@ judge(const unsigned char *raw, size_t n, int serial, int listed, const char *mu
     }
     size_t wn = rp_wire(serial, raw, n, wire);
     rp_feed(&H, wire, wn);
+    (*vh_ncases)++;
     H.out_n = 0;
     H.ncalls = 0;
     H.verdict = (RPBlockAccess){ .status = RP_RESP_ACK, .address = 0 };
@@ -373,6 +374,14 @@ u_options(uint64_t idx, void *arg)
         }
         VH_CASE4(idx, k, f.type, f.options);
         judge(raw, n, serial, 0, what, "generated");
+        if ((k & 7) == 0) {
+            /* every truncation length of this option combination (minimum-length checks per combination) */
+            for (size_t t = 0; t < n; t++) {
+                VH_SUB(4, t);
+                judge(raw, t, serial, 0, "option-combination-truncated", "generated");
+            }
+            VH_COUNT("option-bit combination truncated at every length");
+        }
     }
     /* arbitrary octet strings as frame content */
     for (int k = 0; k < 600; k++) {
@@ -408,7 +417,8 @@ harness_run(void)
                                  "declared payload checksum that does not match",
                                  "payload checksum declared without header checksum, payload damaged",
                                  "odd number of payload octets under 16-bit semantics",
-                                 "arbitrary octet strings judged" };
+                                 "arbitrary octet strings judged",
+                                 "option-bit combination truncated at every length" };
     for (size_t i = 0; i < sizeof req / sizeof req[0]; i++)
         vh_require(req[i]);
 }
